@@ -128,6 +128,12 @@ def canon(o):
         return ("ma", o.dtype.str, o.shape, np.asarray(o.data).tobytes(), np.ma.getmaskarray(o).tobytes())
     if isinstance(o, np.ndarray):
         return ("nd", o.dtype.str, o.shape, o.tobytes())
+    if isinstance(o, (pd.Series, pd.Index)) and getattr(o.dtype, "tz", None) is not None:
+        # tz-aware values: compare the instants (to_numpy() would give fresh Timestamp objects every time)
+        vals = (o.dt.tz_convert("UTC") if isinstance(o, pd.Series) else o.tz_convert("UTC")).tz_localize(None) \
+            if isinstance(o, pd.Index) else o.dt.tz_convert("UTC").dt.tz_localize(None)
+        idx = canon(o.index.to_numpy()) if isinstance(o, pd.Series) else ()
+        return ("tzaware", str(o.dtype), canon(np.asarray(vals.to_numpy(), dtype="datetime64[ns]")), idx)
     if isinstance(o, pd.Series):
         return ("series", canon(o.to_numpy()), canon(o.index.to_numpy()), str(o.dtype))
     if isinstance(o, pd.Index):
